@@ -63,3 +63,44 @@ package replication
 //@   modifies allfields(worker), allfields(replicationThrottle), family(CH_len), world.clock, (*w).engine.Manager.store.rHas, (*w).engine.Manager.store.rPair, (*w).engine.Manager.store.nwk, (*w).engine.Manager.store.wVal, (*w).engine.Manager.store.wVer, (*w).engine.Manager.store.wDel, (*w).engine.Manager.store.wPrevHas, (*w).engine.Manager.store.wPrev
 //@   before replication.(*worker).do assert [C15.gate] (*w).leased.v != 0
 //@   loop 0 invariant t != nil && (*w).workerFactory == old((*w).workerFactory) && (*w).engine == old((*w).engine) && (*w).engine.Manager == old((*w).engine.Manager) && (*w).engine.Manager.store == old((*w).engine.Manager.store) && (*w).log == old((*w).log) && (*w).recoverySemaphore == old((*w).recoverySemaphore)
+
+// ---------------------------------------------------------------- applying the leader's commands (C05)
+
+//@ import regattapb "github.com/jamf/regatta/regattapb"
+//@ import storage "github.com/jamf/regatta/storage"
+//@ trustframe "fmt" "google.golang.org/grpc/status" "google.golang.org/grpc/codes" "google.golang.org/grpc"
+
+// a SEQUENCE command marshals to bytes that remember how many commands it carries and which leader index
+// (regattapb.(*Command).SizeVT / MarshalToSizedBufferVT: contracts/ext/regattapb.spec)
+
+// one proposal: what is pending in `seq` is proposed once (its elements counted, its leader index
+// carried), and in every case `seq` is emptied afterwards
+//@ func (*worker).proposeBatch$1$1
+//@   requires *seq != nil
+//@   ensures len((*seq).Sequence) == 0 && (*seq).LeaderIndex == nil && (*seq).Sequence.arr == old((*seq).Sequence.arr)
+//@   modifies (*seq).Sequence, (*seq).LeaderIndex
+//@ func (*worker).proposeBatch$1
+//@   results err
+//@   requires *seq != nil && (*seq).LeaderIndex != nil && *w != nil && (*w).workerFactory != nil && (*w).engine != nil && (*w).engine.NodeHost != nil && (*w).metrics.replicationFollowerIndex != nil
+//@   ensures [C05.propose.once] err == nil ==> (*w).engine.NodeHost.nseq == old((*w).engine.NodeHost.nseq) + old(len((*seq).Sequence)) && hasLI((*w).engine.NodeHost.lastCmd) && liVal((*w).engine.NodeHost.lastCmd) == old(*(*seq).LeaderIndex)
+//@   ensures [C05.propose.fail] err != nil ==> (*w).engine.NodeHost.nseq == old((*w).engine.NodeHost.nseq)
+//@   ensures [C05.propose.reset] len((*seq).Sequence) == 0 && (*seq).LeaderIndex == nil && (*seq).Sequence.arr == old((*seq).Sequence.arr)
+//@   ensures isNilSlice(*buff) || fresh(*buff) || (*buff).arr == old((*buff).arr)
+//@   modifies (*seq).Sequence, (*seq).LeaderIndex, *buff, elems(*buff), (*w).engine.NodeHost.lastRes, (*w).engine.NodeHost.lastErr, (*w).engine.NodeHost.lastCmd, (*w).engine.NodeHost.nelem, (*w).engine.NodeHost.nseq
+
+// proposeBatch: every received command is proposed exactly once: commands consumed == sequence
+// elements proposed + elements pending (loop invariant), nothing pending on success; every proposal
+// carries the leader index of its last command, and the index reported back is that of the last
+// command of the batch.
+//@ func (*worker).proposeBatch
+//@   params w, ctx, commands, session
+//@   results applied, err
+//@   requires w != nil && w.workerFactory != nil && w.engine != nil && w.engine.NodeHost != nil && w.metrics.replicationFollowerIndex != nil
+//@   requires forall j int :: 0 <= j && j < len(commands) ==> commands[j] != nil
+//@   ensures [C05.batch.all] err == nil ==> w.engine.NodeHost.nseq - old(w.engine.NodeHost.nseq) == len(commands)
+//@   ensures [C05.batch.applied] err == nil && len(commands) > 0 ==> applied == commands[len(commands)-1].LeaderIndex && hasLI(w.engine.NodeHost.lastCmd) && liVal(w.engine.NodeHost.lastCmd) == applied
+//@   modifies w.engine.NodeHost.lastRes, w.engine.NodeHost.lastErr, w.engine.NodeHost.lastCmd, w.engine.NodeHost.nelem, w.engine.NodeHost.nseq
+//@   loop 0 invariant seq != nil && fresh(seq) && -1 <= rangeindex && rangeindex < len(commands) && (isNilSlice(seq.Sequence) || fresh(seq.Sequence)) && (isNilSlice(buff) || fresh(buff))
+//@   loop 0 invariant [C05.batch.count] w.engine.NodeHost.nseq - old(w.engine.NodeHost.nseq) + len(seq.Sequence) == rangeindex + 1
+//@   loop 0 invariant (rangeindex == -1 || rangeindex == len(commands) - 1) ==> len(seq.Sequence) == 0
+//@   loop 0 invariant rangeindex >= 0 && len(seq.Sequence) == 0 ==> lastApplied == commands[rangeindex].LeaderIndex && hasLI(w.engine.NodeHost.lastCmd) && liVal(w.engine.NodeHost.lastCmd) == lastApplied
